@@ -31,6 +31,20 @@ def gen(t, n):
         return "__out(1); var s = 0; for (var i = 0; i < 2; i++) { " + "s += 1; " * n + "} s", 2 * n
     if t == "while_body":
         return "__out(1); var s = 0, i = 0; while (i < 2) { i++; " + "s += 1; " * n + "} s", 2 * n
+    if t == "dowhile_continue":
+        return ("__out(1); var s = 0, i = 0; do { i++; if (i > 0) { s += 100000; continue } " + "s += 1; " * n + "} while (i < 2); s"), 200000
+    if t == "for_continue":
+        return ("__out(1); var s = 0; for (var i = 0; i < 2; i++) { if (i >= 0) { s += 100000; continue } " + "s += 1; " * n + "} s"), 200000
+    if t == "callback_loop":
+        return ("__out(1); var s = 0; [1, 2].forEach(function () { for (var i = 0; i < 2; i++) { " + "s += 1; " * n + "} }); s"), 4 * n
+    if t == "callback_branch":
+        return ("__out(1); var s = 0; [1].map(function () { var c = false; if (c) { " + "s += 1; " * n + "} else { s = -1 } }); s"), -1
+    if t == "comparator_try":
+        return ("__out(1); var s = 0; [2, 1].sort(function (a, b) { try { " + "s += 1; " * n + "throw 1 } catch (e) { s += 1000000 } return a - b }); s"), \
+            n + 1000000
+    if t == "getter_switch":
+        return ("__out(1); var o = {get x() { var r = -2; switch (%d) { " % n + "".join("case %d: r = %d; break; " % (i, i) for i in range(n))
+                + "default: r = -1 } return r }}; o.x"), -1
     if t == "then_taken":
         return "__out(1); var s = 0, c = true; if (c) { " + "s += 1; " * n + "} else { s = -1 } s", n
     if t == "then_skipped":
@@ -91,11 +105,11 @@ def gen(t, n):
     raise ValueError(t)
 
 
-TEMPLATES = ["stmts_program", "stmts_function", "loop_body", "while_body", "then_taken", "then_skipped", "cond_expr",
+TEMPLATES = ["dowhile_continue", "for_continue", "callback_loop", "callback_branch", "comparator_try", "getter_switch", "stmts_program", "stmts_function", "loop_body", "while_body", "then_taken", "then_skipped", "cond_expr",
              "before_catch", "finally_after", "break_far", "switch_cases", "switch_default", "array_literal",
              "object_literal", "call_args", "params", "num_constants", "str_constants", "globals", "locals", "captured",
              "function_literals", "string_literal", "sum_chain", "member_chain", "comma_chain"]
-JUMPY = ["stmts_program", "stmts_function", "loop_body", "while_body", "then_taken", "then_skipped", "cond_expr",
+JUMPY = ["dowhile_continue", "for_continue", "callback_loop", "callback_branch", "comparator_try", "getter_switch", "stmts_program", "stmts_function", "loop_body", "while_body", "then_taken", "then_skipped", "cond_expr",
          "before_catch", "finally_after", "break_far", "switch_cases", "switch_default", "num_constants"]
 NS = [0, 1, 2, 127, 128, 254, 255, 256, 257, 511, 512, 1023, 4096]
 
@@ -200,13 +214,16 @@ def _sp(name, runner, fn, rule, bound, batch=1, watchdog=300):
 def spaces(tier, seed, all_strata=False):
     core = [
         _sp("c14_scale", "run_scale", lambda: _scale_cases(NS),
-            "26 shape templates (statements in program/function/loop/branch/try/switch, array and object literals, call "
+            "32 shape templates (do-while/for with a forward continue across the body, bodies run under native callbacks, statements in program/function/loop/branch/try/switch, array and object literals, call "
             "arguments, parameters, distinct numeric/string constants, globals, locals, captured variables, function "
             "literals, long string literal, +/member/comma chains) x n in {0,1,2,127,128,254,255,256,257,511,512,1023,4096}; "
             "result = closed form in n, or a JSError before the first statement ran", "n up to 4096", batch=4),
         _sp("c14_jump65535", "run_boundary", lambda: _boundary_cases(65535, 3, [2, 4]),
-            "13 jump-bearing templates: n* = first n whose bytecode exceeds 65535 bytes (binary search on the real "
+            "19 jump-bearing templates: n* = first n whose bytecode exceeds 65535 bytes (binary search on the real "
             "compiler), every n in [n*-3, n*+3], plus 2n* and 4n*", "65535 +- 3"),
+        _sp("c14_jump32767", "run_boundary", lambda: _boundary_cases(32767, 2, []),
+            "the same around the 32767-byte boundary (a signed 16-bit decoder would mis-read targets above it), including bodies "
+            "run by the second interpreter loop (callbacks of forEach/map/sort, getters)", "32767 +- 2"),
         _sp("c14_jump255", "run_boundary", lambda: _boundary_cases(255, 3, []),
             "the same around the 255-byte boundary", "255 +- 3"),
     ]
